@@ -25,6 +25,8 @@ fn main() {
         match prop {
             "C01" | "C03" | "C07" => vcore::ck_engine::replay(prop, path),
             "C08" => vcore::ck_crash::replay(path),
+            "C04" => vcore::conc::replay("C04", path),
+            "C02" => vcore::conc::replay("C02", path),
             "C09" => vcore::ck_storage::replay_c09(path),
             "C10" => vcore::ck_storage::replay_c10(path),
             _ => {
@@ -41,6 +43,8 @@ fn main() {
         match prop {
             "C01" | "C03" | "C07" => vcore::ck_engine::check(prop, tier),
             "C08" => vcore::ck_crash::check(tier),
+            "C04" => vcore::conc::check("C04", tier),
+            "C02" => vcore::conc::check("C02", tier),
             "C09" => vcore::ck_storage::check_c09(tier),
             "C10" => vcore::ck_storage::check_c10(tier),
             _ => {
